@@ -70,7 +70,7 @@ def _f32(case):
 
 def run(chk: framework.Check):
     drv = lean.Driver()
-    n_worlds = 120 if chk.tier == "quick" else 1500
+    n_worlds = 600 if chk.tier == "quick" else 6000
     corr_fail = []
     for G, S, w in streams.worlds(chk, drv, n_worlds, no_any=True):
         for ty, x, xv in streams.typed_values(chk, G, S, w, n_types=5, n_values=2):
